@@ -1,6 +1,6 @@
 (** Property C17 — the theorems the check counts as obligations.  Nothing but
     statements closed by [exact] and [Print Assumptions]. *)
-From HS Require Import Base.Prelude C17.Model C17.PBProofs C17.PBConv C17.Chain C17.ChainProofs C17.ChainConv C17.ML C17.MLProofs.
+From HS Require Import Base.Prelude C17.Model C17.PBProofs C17.PBConv C17.Chain C17.ChainProofs C17.ChainConv C17.ML C17.MLProofs C17.PBFifo C17.RS.
 From Coq Require Import Permutation.
 Local Open Scope Z_scope.
 
@@ -84,3 +84,24 @@ Print Assumptions c17_ml_order_independent.
 Theorem c17_ml_merge_not_assoc_witness : merge (merge na nb) nc <> merge na (merge nb nc).
 Proof. exact merge_not_assoc_witness. Qed.
 Print Assumptions c17_ml_merge_not_assoc_witness.
+
+(** Primary-backup convergence, PARTIAL (what does hold of the clause refuted by
+    c17_pb_convergence_refuted): when every link delivers Replicate messages in
+    send order and every backup store completes its puts in arrival order, then at
+    quiescence every backup's log and store are exactly the primary's — all write
+    sequences (repeated keys), all modes, any number of backups, any interleaving
+    otherwise. *)
+Theorem c17_pb_convergence_fifo_partial : forall c sched s,
+  run_fifo c init sched = Some s -> quiescent s ->
+  forall b, In b (bids c) ->
+    bs_log (s_bak s b) = ps_log (s_prim s) /\ bs_store (s_bak s b) = ps_store (s_prim s).
+Proof. exact pb_convergence_fifo. Qed.
+Print Assumptions c17_pb_convergence_fifo_partial.
+
+(** ReplicatedStore: a put that returned True has been applied on every replica,
+    for every interleaving of concurrent puts and gets and every consistency level. *)
+Theorem c17_rs_acked_everywhere : forall c sched s,
+  rrun c rinit sched = Some s ->
+  forall w k v, In (w, k, v) (r_acked s) -> forall i, (i < rc_n c)%nat -> In (k, v) (r_log s i).
+Proof. exact rs_acked_everywhere. Qed.
+Print Assumptions c17_rs_acked_everywhere.
